@@ -487,6 +487,8 @@ def generate_system(cs, tier="quick", profile=None):
     maxdim = 5 if tier == "quick" else 7
     if profile in ("parametric",):
         maxdim = 4
+    elif tier != "quick" and profile in ("companion", "scrambled", "repeated_companion"):
+        maxdim = 6   # exact irrational roots in dimension 7 only produce solver timeouts
     feats = {"profile:" + profile}
     blocks = _pick_dim_blocks(rng, profile, maxdim)
     rng.shuffle(blocks) if profile not in ("nilchain", "scrambled_nil") or rng.random() < 0.5 else None
@@ -648,7 +650,7 @@ def generate_system(cs, tier="quick", profile=None):
     elif profile == "hard":
         runs = [{"force_cyclic": False, "numeric_croots": True, "numeric_eps": "1e-10"},
                 {"force_cyclic": True, "numeric_roots": True, "numeric_eps": rng.choice(["1e-10", "1e-20"])}]
-        if rng.random() < 0.3:
+        if rng.random() < 0.3 and not any(k_ == "H" and sp_[0] == "quintic" for k_, sp_ in blocks):
             runs.append({"force_cyclic": True})
         feats.add("root-options")
 
@@ -709,7 +711,7 @@ def lf_mat_vec(P, v):
 
 
 # a few fixed witnesses that must always be part of the workload (pre-observed mechanisms)
-def fixed_cases():
+def fixed_cases(tier="quick"):
     def sysd(vars_, A, b, v, runs, feats, profile="fixed"):
         return {"vars": vars_, "A": [[lf_enc(lf(c)) for c in r] for r in A], "b": [lf_enc(lf(c)) for c in b],
                 "v": [lf_enc(lf(c)) for c in v], "consts": [], "instances": [{}], "runs": runs,
@@ -737,4 +739,13 @@ def fixed_cases():
                                               [{"force_cyclic": True, "numeric_roots": True, "numeric_eps": "1e-10"},
                                                {"force_cyclic": True, "numeric_croots": True, "numeric_eps": "1e-10"}],
                                               {"profile:fixed", "companion:plastic", "root-options"})))
+    # default dispatch is cyclic and 0 is a double root:  x' = 0, y' = y + z, z' = x + y + z  (truth y = 0,0,1,2,4,8,..)
+    out.append(("fixed-cyclic-double-zero", sysd(["u0", "u1", "u2"], [[0, 0, 0], [0, 1, 1], [1, 1, 1]], [0, 0, 0], [1, 0, 0], both,
+                                                 {"profile:fixed", "jordan0-size2"})))
+    if tier != "quick":
+        # (x^2-x-1)(x^3-x-1) with numeric_croots: exact (1+-sqrt5)/2 mixed with 15-digit floats in sympy linsolve (~25 s)
+        A, _ = block_sum([companion(COMPANIONS["fib"]), companion(COMPANIONS["plastic"])])
+        out.append(("fixed-fib-plastic-croots", sysd(["u0", "u1", "u2", "u3", "u4"], A, [0] * 5, [1, 0, 1, 0, 2],
+                                                     [{"force_cyclic": False, "numeric_croots": True, "numeric_eps": "1e-10"}],
+                                                     {"profile:fixed", "companion:fib", "companion:plastic", "root-options"})))
     return out
